@@ -272,6 +272,22 @@ Qed.
 (* the pending cells of a buffer, in row-major order *)
 Definition pending (s : rb) : list tpos := pending_rows (cells s) 0.
 
+(* it is the list the oracle's checker computes from the specification's grid *)
+Lemma pending_is_a_pending : forall rows base, a_pending_from (map abs_row rows) base = pending_rows rows base.
+Proof.
+  induction rows as [|r rows IH]; intros base; cbn [map a_pending_from pending_rows]; [reflexivity|].
+  rewrite IH. f_equal. unfold a_pending_row, pending_cols. f_equal.
+  assert (El : length (abs_row r) = Z.to_nat (len r - 0)).
+  { pose proof (zlen_abs_row r) as H. unfold zlen in H. lia. }
+  rewrite El. apply filter_ext_in. intros x Hx. apply in_zseq in Hx.
+  unfold nthz. destruct (Z.ltb_spec x 0); [lia|].
+  change (nth (Z.to_nat x) (abs_row r) (mkA ASkip (-1))) with (zn (abs_row r) x (mkA ASkip (-1))).
+  rewrite zn_abs_row by lia. reflexivity.
+Qed.
+
+Theorem a_pending_abs : forall s, a_pending (ag (abs_rb s)) = pending s.
+Proof. intros s. unfold a_pending, pending, abs_rb. cbn [ag]. apply pending_is_a_pending. Qed.
+
 Theorem pending_spec : forall s, Inv s ->
   NoDup (pending s) /\
   forall l c, In (l, c) (pending s) <->
@@ -302,6 +318,21 @@ Proof.
   destruct (inv_rows s I (Z.of_nat k) Hy) as (_ & W & _).
   assert (RC := rows_content_ok s (Z.of_nat k) I Hc Hy).
   unfold zn in W, RC. rewrite Nat2Z.id in W, RC. split; assumption.
+Qed.
+
+(* the same as the verdict of the oracle's checker (clause 4 of flush_checkb) on the model's
+   own operations *)
+Lemma tpos_list_eqb_refl : forall l, list_eqb tpos_eqb l l = true.
+Proof.
+  induction l as [|[a b] l IH]; cbn [list_eqb]; [reflexivity|].
+  unfold tpos_eqb at 1. cbn [fst snd]. now rewrite !Z.eqb_refl, IH.
+Qed.
+
+Theorem flush_covers : forall s ops s',
+  Inv s -> acells_ok (abs_rb s) -> flush s = Ok (ops, s') -> covers_checkb (ag (abs_rb s)) ops = true.
+Proof.
+  intros s ops s' I Hc E. destruct (flush_columns s ops s' None I Hc E) as (cur' & T).
+  unfold covers_checkb. rewrite T, a_pending_abs. apply tpos_list_eqb_refl.
 Qed.
 
 (* ... for every buffer a drawing program reaches *)
